@@ -1,0 +1,26 @@
+//go:build verif
+
+package mcp
+
+import (
+	"net/http"
+	"sync/atomic"
+)
+
+// verifYieldFn is called at instrumented scheduling points (build tag "verif" only).
+var verifYieldFn atomic.Value // of type func(point string, r *http.Request)
+
+// VerifSetYield installs (or with nil removes) the scheduling-point callback. The callback may block the
+// calling goroutine until the harness releases it.
+func VerifSetYield(fn func(point string, r *http.Request)) {
+	if fn == nil {
+		fn = func(string, *http.Request) {}
+	}
+	verifYieldFn.Store(fn)
+}
+
+func verifYield(point string, r *http.Request) {
+	if fn, ok := verifYieldFn.Load().(func(string, *http.Request)); ok && fn != nil {
+		fn(point, r)
+	}
+}
